@@ -14,6 +14,7 @@ func init() {
 	rt.Register("C12_parallel_data_long", VerifHarness_C12_parallel_data_long)
 	rt.Register("C12_parallel_out", VerifHarness_C12_parallel_out)
 	rt.Register("C12_partition_symbolic", VerifHarness_C12_partition_symbolic)
+	rt.Register("C12_coder_goroutines", VerifHarness_C12_coder_goroutines)
 	rt.Register("C07_cauchy_xy", VerifHarness_C07_cauchy_xy)
 	rt.Register("C07_generators", VerifHarness_C07_generators)
 	rt.Register("C07_vandermonde_elem", VerifHarness_C07_vandermonde_elem)
@@ -406,4 +407,28 @@ func VerifHarness_C07_cauchy_big() {
 }
 func VerifHarness_C07_vandermonde_big() {
 	coderCase(false, 5, 3, []int{2, 18, 34}[rt.Choice("len", 3)], 1+rt.Choice("g", 3))
+}
+
+// C12 (c): through the public Coder.  GenerateParity and ReconstructData with
+// 1..5 goroutines give the results of the single-goroutine coder, whatever
+// strategy Coder.applyMatrix picks for the shard length.
+func VerifHarness_C12_coder_goroutines() {
+	g := 2 + rt.Choice("goroutines", 4)
+	length := []int{2, 16, 30, 32, 34, 48, 62, 64, 66}[rt.Choice("length", 9)]
+	c1, err1 := NewCoderCauchy(2, 2, 1)
+	cg, errg := NewCoderCauchy(2, 2, g)
+	rt.Assert(err1 == nil && errg == nil, "coders built")
+	data := shards("d", 2, length)
+	p1 := c1.GenerateParity(data)
+	pg := cg.GenerateParity(data)
+	sameShards(pg, p1, "GenerateParity: goroutine count does not change the result")
+	// lose both data shards, reconstruct from the parity
+	lost1 := [][]byte{nil, nil}
+	lostg := [][]byte{nil, nil}
+	e1 := c1.ReconstructData(lost1, p1)
+	eg := cg.ReconstructData(lostg, p1)
+	rt.Assert((e1 == nil) == (eg == nil), "ReconstructData: same outcome for every goroutine count")
+	if e1 == nil && eg == nil {
+		sameShards(lostg, lost1, "ReconstructData: goroutine count does not change the result")
+	}
 }
